@@ -127,6 +127,8 @@ def fortran_text(code, fspec, implicit_index_vars=False):
         kw = {}
         if fspec.get("instrumentation"):
             kw = dict(emit_instrumentation=True, timing_function="second")
+        if fspec.get("callbacks"):
+            kw.update(call_before_state_update="notify_pre_state_update", call_after_state_update="notify_post_state_update")
         cg = F.CodeGenerator("method", function_registry=registry(fspec), user_type_map=tmap, **kw)
         return cg(code)
     except Exception as ex:     # noqa: BLE001
@@ -194,6 +196,20 @@ def worker_one(inp, hows):
     for key, _ in KEYS:
         if again[key] != base[key]:
             res["again"][key] = again[key]
+    # history on ONE method object: a separate generator object with another configuration (instrumented, with state-update
+    # callbacks) generates from the same DAGCode object in between
+    if inp.get("fortran") and "f" not in res["again"]:
+        code = B.build_code(inp["program"])
+        if inp.get("ids") == "confusable":
+            code = confusable_ids(code)
+        c = present(code, "canon")
+        for own in (inp["fortran"], dict(inp["fortran"], instrumentation=True)):
+            f1 = fortran_text(c, own)
+            fortran_text(c, dict(inp["fortran"], instrumentation=True, callbacks=True))
+            f2 = fortran_text(c, own)
+            if f1 != f2:
+                res["again"]["f"] = f2
+                break
     return res
 
 
